@@ -1,4 +1,5 @@
 import DaskModel.Model.ArrayExpr
+import DaskModel.Lemmas.TreeDepth
 /-!
 # C30 — the array expression engine preserves array semantics  (**partial**)
 
@@ -454,5 +455,57 @@ theorem slice_bin_pushdown (op : BinOp) (s e : Nat) (a b : AE)
     | some ys =>
       have hl' := hl xs ys ha hb
       simp [hl', List.length_take, List.length_drop, List.drop_zipWith, List.take_zipWith]
+
+/-! ## Reductions: the depth loop of the engine's `_tree_reduce` (`_array_expr/_reductions.py`)
+
+The loop is the same as in the classic engine (`Model/ArrayReduce.lean`: `treeDepth`); the harness diffs the number of
+`PartialReduce` levels and the key structure of every level of the real expression against `treeDepth` / `treePlan`
+(section `tree`), and `Props/C22.lean` proves that a tree with that depth and that key structure returns the fold of all
+blocks.  Here: the depth suffices on every reduced axis, and the variant that keeps only the last axis' value does not. -/
+
+open Dask.ArrayReduce in
+/-- **tree_depth_suffices**: with per-axis group sizes `k_i ≥ 2`, every reduced axis `i` satisfies
+    `n_i ≤ k_i ^ depth` for the depth the loop computes — so `depth - 1` combine levels leave at most `k_i` blocks on every
+    axis and the final aggregate level writes each output key once. -/
+theorem tree_depth_suffices (ks ns : List Nat) (hlen : ks.length = ns.length) (hk : ∀ k ∈ ks, 2 ≤ k)
+    (i : Nat) (hi : i < ks.length) (hj : i < ns.length) :
+    ns[i] ≤ ks[i] ^ treeDepth (ks.map some) ns :=
+  axis_le_pow_depthLoop ks ns 1 hlen hk i hi hj
+
+open Dask.ArrayReduce in
+/-- non-vacuity: a 6 × 2 block grid with 4 blocks per group and axis: two levels -/
+example : treeDepth [some 4, some 4] [6, 2] = 2 ∧ (6 : Nat) ≤ 4 ^ treeDepth [some 4, some 4] [6, 2] := by decide
+
+open Dask.ArrayReduce in
+/-- **last_axis_depth_refuted** (independently seeded defect): `depth = max(1, ceil(log(n, k)))` without the running
+    maximum gives depth 1 for the same grid, and `6 ≤ 4 ^ 1` fails: the aggregate level still has two groups on axis 0,
+    both written to the same output key (`Props/C22.lean`: `treeDepthLast_refuted` evaluates the tree: 4 instead of 12). -/
+theorem last_axis_depth_refuted :
+    treeDepthLast [some 4, some 4] [6, 2] = 1 ∧ ¬ ((6 : Nat) ≤ 4 ^ treeDepthLast [some 4, some 4] [6, 2]) := by decide
+
+/-! ## Non-vacuity of the theorems above (concrete expressions satisfying the hypotheses) -/
+
+/-- `x[1:4] + y` with `x` chunked (2, 3), `y` chunked (1, 2): denotes a value, chunks = common refinement (1, 1, 1)… -/
+example : den (.bin .add (.slice 1 4 (.leaf [1, 2, 3, 4, 5] [2, 3])) (.leaf [10, 20, 30] [1, 2])) = some [12, 23, 34] ∧
+    chunks (.bin .add (.slice 1 4 (.leaf [1, 2, 3, 4, 5] [2, 3])) (.leaf [10, 20, 30] [1, 2])) = [1, 2] := by decide
+
+/-- `chunks_sum`, `step_sound`, `step_chunks`, `parStep_sound` on a finalized sum of differently chunked operands: the
+    lowering wraps one operand in a rechunk, finalize becomes a rechunk to one block -/
+example :
+    let e := AE.finalize (.bin .add (.leaf [1, 2, 3] [2, 1]) (.leaf [10, 20, 30] [1, 2]))
+    let e' := AE.rechunk [3] (.bin .add (.rechunk [1, 1, 1] (.leaf [1, 2, 3] [2, 1])) (.rechunk [1, 1, 1] (.leaf [10, 20, 30] [1, 2])))
+    den e = some [11, 22, 33] ∧ parStep e e' = true ∧ den e' = den e ∧ chunks e' = chunks e ∧ chainOk e [e'] = true := by decide
+
+/-- `rootRewrites` really offers the rewrites (the rules are not vacuous) -/
+example : rootRewrites (.rechunk [2, 1] (.leaf [1, 2, 3] [2, 1])) = [.rechunk [2, 1] (.leaf [1, 2, 3] [2, 1]), .leaf [1, 2, 3] [2, 1]] := by
+  decide
+example : rootRewrites (.finalize (.leaf [1, 2, 3] [2, 1])) = [.finalize (.leaf [1, 2, 3] [2, 1]), .rechunk [3] (.leaf [1, 2, 3] [2, 1])] := by
+  decide
+
+/-- `refine_sum` / `rechunk_rechunk_collapse` / `slice_bin_pushdown` hypotheses are satisfiable; the pushdown guard matters -/
+example : refine' [2, 3] [1, 4] = [1, 1, 3] ∧ isum [2, 3] = isum [1, 4] := by decide
+example : den (.rechunk [3] (.rechunk [1, 2] (.leaf [1, 2, 3] [2, 1]))) = some [1, 2, 3] := by decide
+example : den (.slice 0 2 (.bin .add (.leaf [1, 2, 3] [3]) (.leaf [1, 2] [2]))) = none ∧
+    den (.bin .add (.slice 0 2 (.leaf [1, 2, 3] [3])) (.slice 0 2 (.leaf [1, 2] [2]))) = some [2, 4] := by decide
 
 end Dask.C30
